@@ -49,7 +49,14 @@ def ob_member(ctx):
     from .c13 import _rotation_amount
 
     k = _rotation_amount(ctx, "k", n)
-    rec = st.record.CircularRecord(st.Seq(r), id="x")
+    if ctx.P.get("history"):
+        # the same record object held other letters before and was already asked about the same query
+        r0 = ctx.mk.seq("r0", n, "ACGT")
+        rec = st.record.CircularRecord(st.Seq(r0), id="x")
+        q in rec
+        rec.seq = st.Seq(r)
+    else:
+        rec = st.record.CircularRecord(st.Seq(r), id="x")
     got = q in rec
     ctx.observe("in", got)
     want = _occurs(q, qn, r, n)
@@ -217,6 +224,9 @@ def obligations(tier, seed):
     obs = []
     for n in range(1, tier_pick(tier, 9, 12) + 1):
         obs.append(Ob("membership n=%d" % n, ob_member, dict(n=n), samples=8, cost=n ** 3))
+    for n in tier_pick(tier, (4,), (3, 6)):
+        obs.append(Ob("membership in a record whose sequence was replaced n=%d" % n, ob_member, dict(n=n, history=True),
+                      samples=8, cost=2 * n ** 3, group="history"))
     for n in (1, 4):
         obs.append(Ob("add refused n=%d" % n, ob_add, dict(n=n), samples=2, cost=1))
     for via in ("record", "direct"):
